@@ -115,3 +115,33 @@ Proof. vm_compute. reflexivity. Qed.
     error instead of scanning. *)
 Example ex_fullscan_wraps : fullscan [1;2;3]%N (truthful [1;2;4]%N) 0 = inr tt.
 Proof. vm_compute. reflexivity. Qed.
+
+(** The lowest anchor height handed to the full scan is the height of an anchor of the list. *)
+Lemma anchor_nos_nonempty : forall cnt no, cnt <> O -> anchor_nos cnt no <> [].
+Proof. destruct cnt; simpl; intros no H; [contradiction|discriminate]. Qed.
+
+Theorem last_anchor_is_an_anchor : forall lc, In (last_anchor lc) (anchors lc).
+Proof.
+  intros lc. unfold last_anchor, anchors.
+  pose proof (anchor_nos_nonempty MaxAnchors (best_no lc) ltac:(discriminate)) as H.
+  destruct (anchor_nos MaxAnchors (best_no lc)) as [|x r]; [contradiction|].
+  apply (@exists_last _ (x :: r)) in H. destruct H as (l' & a & E). rewrite E.
+  rewrite last_last. apply in_or_app. right. left. reflexivity.
+Qed.
+
+(** The full scan searches every height below the lowest anchor: when the chains share exactly
+    the prefix of [m] blocks and the fork is at or below the lowest anchor, binarySearch(0,
+    LastAnchor-1) returns the highest common block. *)
+Theorem fullscan_range_covers_below_last_anchor : forall lc rc m fuel,
+  (0 < last_anchor lc)%N -> (m <= last_anchor lc)%N ->
+  (forall i, (i < m)%N -> exists h, hash_at lc i = Some h /\ hash_at rc i = Some h) ->
+  (forall i, (m <= i < last_anchor lc)%N -> exists a b, hash_at lc i = Some a /\ hash_at rc i = Some b /\ a <> b) ->
+  (N.to_nat (last_anchor lc) < fuel)%nat ->
+  bin_search fuel lc (truthful rc) 0 (last_anchor lc - 1) None =
+  inl (if (m =? 0)%N then None
+       else match hash_at lc (m - 1) with Some h => Some (h, m - 1)%N | None => None end).
+Proof.
+  intros lc rc m fuel P M C D F.
+  apply fullscan_highest_common; auto; try lia.
+  intros i Hi. apply D. lia.
+Qed.
